@@ -20,6 +20,7 @@ static E1Config makeCfg(const std::string &prop, Family fam, bool directed, bool
     bool small = variant == "n2";
     // ---- bounds
     if (variant == "n2") { c.startSizes = {0, 1, 2}; c.maxN = 2; c.maxDepth = -1; c.completeKey = true; }
+    else if (variant == "n2tiny") { c.startSizes = {1, 2}; c.maxN = 2; c.maxDepth = -1; c.completeKey = true; weightScale() = 0x1p-62; } // weights +-2^-60, 2^-62, 0
     else if (variant == "n1") { c.startSizes = {0, 1}; c.maxN = 1; c.maxDepth = -1; c.completeKey = true; }
     else if (variant == "n3" || variant == "n3a" || variant == "n3b") { c.startSizes = {0, 1, 2, 3}; c.maxN = 3; c.maxDepth = -1; c.completeKey = false; }
     else if (variant == "n3d3") { c.startSizes = {2, 3}; c.maxN = 3; c.maxDepth = 3; c.completeKey = false; }
@@ -38,6 +39,7 @@ static E1Config makeCfg(const std::string &prop, Family fam, bool directed, bool
         else { c.addValues = {0, 1, 2}; c.setValues = {0, 1, 2}; c.removeMultiValues = {0, 1, 2}; c.maxValue = 2; }
     } else { // WEIGHTED, weights x4: -1.5, 0, 0.25, 2
         if (small || variant == "n1") { c.addValues = {-6, 0, 1, 8}; }
+        else if (variant == "n2tiny") { c.addValues = {-4, 0, 1, 4}; }
         else if (variant == "n3b") { c.addValues = {0, 1}; }
         else { c.addValues = {-6, 8}; }
         c.setValues = c.addValues;
